@@ -498,6 +498,11 @@ class SceneGraph:
         for attrib in self.transforms.node_data.values():
             if "geometry" in attrib and attrib["geometry"] in geometries:
                 attrib.pop("geometry")
+        # the edge into the node stores the same reference: drop it as well
+        # or exporting the edge list would attach the geometry again
+        for attrib in self.transforms.edge_data.values():
+            if "geometry" in attrib and attrib["geometry"] in geometries:
+                attrib.pop("geometry")
 
         # it would be safer to just run _cache.clear
         # but the only property using the geometry should be
